@@ -399,10 +399,10 @@ package component_definition
 
 // ---- diagnostic names (C11: which logger prefix a field gets) ---------------------------------------------------------
 // HolderStr / MetaStr name what Holder.String / Meta.String render: the component's own name for a Meta and for a
-// top-level holder, the path through the embedded structs for an embedded holder. Trusted naming contracts (the
-// rendering itself is fmt.Sprintf).
+// top-level holder, the path through the embedded structs for an embedded holder. Meta.String is proved against the
+// definition of MetaStr (fmt.Sprintf named by Sprintf2, A-LIB); Holder.String is a trusted naming contract.
 //@ spec func HolderStr(h *Holder) string
-//@ spec func MetaStr(m *Meta) string
+//@ spec func MetaStr(m *Meta) string = ite(m.alias != "", Sprintf2("%s(alias=%s)", toany(m.name), toany(m.alias)), m.name)
 //@ func (*Holder).String
 //@ trusted
 //@ pure
@@ -411,7 +411,7 @@ package component_definition
 //@ assigns nothing
 //@ ensures [named] result == HolderStr(s)
 //@ func (*Meta).String
-//@ trusted
+//@ property C11
 //@ pure
 //@ terminates
 //@ requires [meta] m != nil
